@@ -17,7 +17,8 @@ query paths, the helper keeping in order exactly the requested types and the fil
 candidates; (order) that the sort key is every requested attribute in request order and the direction the requested
 one, and that Utils.get_nested - interpreted (absint.MiniExec, no repository code runs) on paths of depth 1..3 with every
 falsy leaf value - returns exactly the stored leaf and None only for an absent path (skipped with a note when the helper
-leaves the interpreted subset).
+leaves the interpreted subset); that the containment helper tests the bare reference value only against non-string candidates
+(strings get `str(needle)`), and that no enumeration with a member valued 0 is tested for truthiness in the filter / query code.
 Does not decide equivalence with a predicate evaluator over generated stores, TinyDB's own semantics, comparisons of
 values of different types, nor the body of Utils.find_attribute (resolved as a callee).
 
@@ -28,6 +29,7 @@ from __future__ import annotations
 
 import ast
 import copy
+import re
 
 from .. import sem
 from ..flow import FunctionFlow, cond_atoms
@@ -308,6 +310,45 @@ class _DataExec:
         return DataExec
 
 
+def check_enum_truthiness(ctx, P, classes) -> None:
+    """An enumeration with a member valued 0 (LogicalOperators.AND, ComparisonOperators.EQ, ...) is never tested for truthiness
+    in the filter / query code: `if not filter.logical_operator` is also true for AND, so a two-statement `and` filter is
+    evaluated as its first statement alone.  Absence must be tested with `is None`."""
+    n_tests = 0
+    for ci in classes:
+        for fi in ci.methods.values():
+            fl = ctx.flows.get(fi)
+            for node in ast.walk(fi.node):
+                test = node.test if isinstance(node, (ast.If, ast.IfExp, ast.While)) else None
+                if test is None:
+                    continue
+                n_tests += 1
+                bare = []
+
+                def collect(t_):
+                    if isinstance(t_, ast.UnaryOp) and isinstance(t_.op, ast.Not):
+                        collect(t_.operand)
+                    elif isinstance(t_, ast.BoolOp):
+                        for v_ in t_.values:
+                            collect(v_)
+                    elif isinstance(t_, (ast.Name, ast.Attribute)):
+                        bare.append(t_)
+                collect(test)
+                for b in bare:
+                    zero = []
+                    for t_ in P.expr_types(fi, b):
+                        c_ = P.classes.get(t_) if isinstance(t_, str) else None
+                        if c_ is not None and c_.is_enum and any(v == 0 and not isinstance(v, bool) for v in c_.enum_members.values()):
+                            zero.append((c_.name, [k for k, v in c_.enum_members.items() if v == 0][0]))
+                    if zero:
+                        ctx.ob("C13.ops", fi.short(), f"enum-truthiness:{sem.cx(b)}", False,
+                               f"`{unparse(test)[:60]}` tests `{sem.cx(b)}` for truthiness, but {zero[0][0]}.{zero[0][1]} is 0: the member counts as "
+                               "'no value' - test `is None` instead", f"{fi.module.rel}:{node.lineno}")
+    ctx.extra["truthiness_tests_examined"] = n_tests
+    if n_tests < 10:
+        raise AnalysisError(f"C13: only {n_tests} conditions found in the filter / query code (confirmed: > 30)")
+
+
 def check_order_key(ctx, P) -> None:
     """The ordering key (and the station-id lookup) reads a stored value through Utils.get_nested(object, path).  Interpreted
     on representatives - paths of depth 1..3, leaf values including every falsy one (0, 0.0, '', False, [], {}) - it returns
@@ -374,6 +415,7 @@ def run(ctx):
     check_path_root(ctx, P, db, tdb)
     check_missing_attr(ctx, P, db)
     check_order_key(ctx, P)
+    check_enum_truthiness(ctx, P, [db, tdb, P.cls(SV)])
     check_types(ctx, P, db, tdb)
     ctx.floor("C13.types-always", 9)
     check_order(ctx, P)
@@ -512,6 +554,14 @@ def check_like(ctx, P, mod, tdb):
             continue
         if isinstance(v, ast.Compare) and len(v.ops) == 1 and isinstance(v.ops[0], ast.In) and is_name(v.comparators[0], cand) and \
                 (is_name(v.left, needle) or sem.same(v.left, f"str({needle})")):
+            if is_name(v.left, needle):
+                # the bare reference value may be tested only where the candidate is certainly not a string: `1 in "a1"` raises
+                # TypeError (swallowed as a non-match in memory, propagated by TinyDB - the back-ends part ways)
+                ats = sem.facts_of_state(st) if hasattr(sem, "facts_of_state") else set()
+                typed = [a_ for a_ in ats if a_.startswith("truthy(isinstance(" + cand)]
+                if not typed or any(re.search(r"\bstr\b", a_) for a_ in typed):
+                    vbad.append(f"`{short(v)}` where the candidate may be a string (the reference value is not coerced with str())")
+                    continue
             n_in += 1
             continue
         vbad.append(short(v) if v is not None else k)
